@@ -16,7 +16,7 @@ import (
 )
 
 func init() {
-	register("C10", c10Reaper, c10Pending, c10Dispose, c10Slot, c10Clean, c10Deadline, c10Retry, c10Lock,
+	register("C10", c10Reaper, c10LockAlias, c10Pending, c10Dispose, c10Slot, c10Clean, c10Deadline, c10Retry, c10Lock,
 		// a streamed response hands its connection back to the pool when the body stream says it is
 		// fully consumed: the drain accounting is part of "reused only after a clean exchange"
 		c14Drain, c14EOF, c10Budget, c10ChPool, c10Rewind, c10SkipBody)
